@@ -7,11 +7,13 @@
   are arbitrary functions; correlation needs `IsSqrt sqrt`, poisson needs nothing of `lg`.
 -/
 import Mathlib.Analysis.Real.Sqrt
+import Mathlib.Analysis.SpecialFunctions.Log.Basic
 import Mathlib.Data.String.Basic
 import Mathlib.Algebra.Order.Field.Rat
 import Rsa.Lemmas.C01Label
 import Rsa.Lemmas.C01Reorder
 import Rsa.Lemmas.C01Calc
+import Rsa.Lemmas.C01Scale
 import Rsa.Lemmas.C01Build
 import Rsa.Lemmas.C01Top
 
@@ -175,6 +177,79 @@ theorem distSpec_symm (P : Nat) (sqrt lg : K → K) (m : Method K) (rm : Bool) (
     simp only [distSpec, poissonSpec]
     congr 1
     exact sumTo_congr (fun i _ => by ring)
+
+/-! ### value scales (round 5)
+
+Data recorded in another unit (`smulRow s x`: every channel multiplied by `s`, e.g. tesla instead
+of femtotesla) change the four dissimilarities by the law of the formula and by nothing else:
+squared distances by `s²` (`t·s²` when the precision is multiplied by `t`), `1 - r` not at all,
+the Poisson divergence by `s` (prior rate in the same unit).  An absolute constant inside an
+estimator (an "epsilon") contradicts these laws. -/
+
+/-- `remove_mean` commutes with a change of unit -/
+theorem centre_scale (P : Nat) (s : K) (x : Row K) :
+    centre P (smulRow s x) = smulRow s (centre P x) := centre_smul P s x
+
+/-- scale laws of the four specified formulas (with or without `remove_mean`) -/
+theorem distSpec_scale (P : Nat) (sqrt lg : K → K) (s : K) (rm : Bool) (a b : Row K) :
+    distSpec P sqrt lg .euclidean rm (smulRow s a) (smulRow s b) =
+        s * s * distSpec P sqrt lg .euclidean rm a b ∧
+    (∀ (t : K) (N : Nat → Nat → K),
+      distSpec P sqrt lg (.mahalanobis (some (fun i j => t * N i j))) rm
+          (smulRow s a) (smulRow s b) =
+        t * (s * s) * distSpec P sqrt lg (.mahalanobis (some N)) rm a b) ∧
+    (IsSqrt sqrt → 0 < s →
+      distSpec P sqrt lg .correlation rm (smulRow s a) (smulRow s b) =
+        distSpec P sqrt lg .correlation rm a b) ∧
+    (∀ pl pw : K,
+      (∀ c, c < P → lg (s * rateSpec pl pw a c) - lg (s * rateSpec pl pw b c) =
+          lg (rateSpec pl pw a c) - lg (rateSpec pl pw b c)) →
+      distSpec P sqrt lg (.poisson (s * pl) pw) rm (smulRow s a) (smulRow s b) =
+        s * distSpec P sqrt lg (.poisson pl pw) rm a b) := by
+  refine ⟨?_, ?_, ?_, ?_⟩
+  · cases rm <;> simp [distSpec, centre_smul, euclidSpec_smul]
+  · intro t N
+    cases rm <;> simp [distSpec, centre_smul, mahalSpec_smul]
+  · intro hs hs0
+    simp only [distSpec]
+    exact corrSpec_smul P sqrt hs s hs0 a b
+  · intro pl pw hlg
+    simp only [distSpec, rateSpec_smul]
+    exact poissonSpec_smul P lg s _ _ hlg
+
+/-- the estimators *as coded* obey the laws: the euclidean Gram form returns `s²` times its
+    value, the coded correlation (centre, divide by the row norm — leaf `corrUnit` —, `1 - M Mᵀ`)
+    returns exactly what it returns on the unscaled data, for every positive `s` however small -/
+theorem distVec_scale (P : Nat) (sqrt lg : K → K) (s : K) (rm : Bool) (M : List (Row K)) :
+    distVec P sqrt lg .euclidean rm (M.map (smulRow s)) =
+        (distVec P sqrt lg .euclidean rm M).map (fun d => s * s * d) ∧
+    (0 < P → IsSqrt sqrt → 0 < s →
+      distVec P sqrt lg .correlation rm (M.map (smulRow s)) =
+        distVec P sqrt lg .correlation rm M) := by
+  constructor
+  · rw [distVec_eq_spec P sqrt lg .euclidean trivial, distVec_eq_spec P sqrt lg .euclidean trivial,
+      pairsOf_map, List.map_map, List.map_map]
+    apply List.map_congr_left
+    intro p _
+    exact (distSpec_scale P sqrt lg s rm p.1 p.2).1
+  · intro hP hs hs0
+    rw [distVec_eq_spec P sqrt lg .correlation ⟨hP, hs⟩,
+      distVec_eq_spec P sqrt lg .correlation ⟨hP, hs⟩, pairsOf_map, List.map_map]
+    apply List.map_congr_left
+    intro p _
+    exact (distSpec_scale P sqrt lg s rm p.1 p.2).2.2.1 hs hs0
+
+/-- non-vacuity: `Real.log` has the property the Poisson law asks of `lg` (positive rates, `s > 0`) -/
+example (s x y : ℝ) (hs : 0 < s) (hx : 0 < x) (hy : 0 < y) :
+    Real.log (s * x) - Real.log (s * y) = Real.log x - Real.log y := by
+  rw [Real.log_mul hs.ne' hx.ne', Real.log_mul hs.ne' hy.ne']
+  ring
+
+/-- non-vacuity: a tiny unit (2⁻⁶⁰) on concrete rational patterns -/
+example : euclidSpec 2 (smulRow ((1 : ℚ) / 2 ^ 60) (fun c => (c : ℚ) + 1))
+      (smulRow ((1 : ℚ) / 2 ^ 60) (fun c => 3 - (c : ℚ))) =
+    (1 / 2 ^ 60) * (1 / 2 ^ 60) * euclidSpec 2 (fun c => (c : ℚ) + 1) (fun c => 3 - (c : ℚ)) :=
+  euclidSpec_smul 2 _ _ _
 
 /-! ### the whole call -/
 
